@@ -46,7 +46,10 @@ def cases(draw, max_puts=8):
     for i in range(n):
         t += draw(st.sampled_from([0.0, 0.5, 0.5, 1.0, 1.0, 1.5, 2.0, 2.5, 3.0, 4.5]))
         puts.append({'t': t, 'dur': draw(st.sampled_from([1, 1, 2, 3])),
-                     'fail': draw(st.integers(0, 5)) == 0})
+                     'fail': draw(st.integers(0, 5)) == 0,
+                     # a failing run may also fail before its first await: the callable given as 'coro'
+                     # is a plain function checking its arguments and returning the coroutine
+                     'callfail': draw(st.integers(0, 2)) == 0})
     last = puts[-1]['t'] if puts else 0.0
     stop = draw(st.one_of(st.sampled_from([0.0, last + 0.5, last + 1.0, last + 2.5, last + 30.0]),
                           st.integers(0, 20).map(lambda k: k * 0.5)))
@@ -114,7 +117,17 @@ def execute(case):
         if case['stop_fail']:
             fails.add('STOP')
 
-        async def coro(value, **kw):
+        callfails = {i for i, p in enumerate(case['puts']) if p['fail'] and p.get('callfail')}
+
+        def coro(value, **kw):
+            if value in callfails:
+                # counts as a run that failed at once
+                log.append((now(), 'start', value, kw))
+                log.append((now(), 'fail', value))
+                raise ValueError(f'run {value}')
+            return real_coro(value, **kw)
+
+        async def real_coro(value, **kw):
             log.append((now(), 'start', value, kw))
             try:
                 await asyncio.sleep(durs[value])
